@@ -8,4 +8,6 @@ CONSTANTS
   RepoWrapped = TRUE
   EmbFinally = TRUE
   RestoreOnReturn = TRUE
+  EmbRestoreAll = TRUE
+  SuperCheckFirst = TRUE
 CHECK_DEADLOCK FALSE
